@@ -94,6 +94,62 @@ pub fn run(out: &mut Out, tier: &str, seed: u64, _scratch: &str) {
         out.case(&format!("c13 iskw {p}"), if incan_core::lang::rust_keywords::is_keyword(p) { "keyword" } else { "plain" });
         out.case(&format!("c13 legal {p}"), if lexes_as_ident(p) { "ident" } else { "reserved" });
     }
+    // (a') the spelling the emitter gives a local variable / a field / a function of that name
+    {
+        let mut names: Vec<String> = rust.clone();
+        names.extend(["zeta", "loop_", "_loop", "r_loop", "Zeta_9"].iter().map(|s| s.to_string()));
+        for n in names.iter().filter(|n| lexes_as_ident(n) && n.as_str() != "Self" && n.as_str() != "self") {
+            let src = format!("model M:\n    {n}: int\n\ndef main() -> None:\n    {n} = 41\n    m = M({n}=42)\n    println(f\"{{{n}}} {{m.{n}}}\")\n");
+            let real = match runner::compile(&src) {
+                Err((stage, msg)) => format!("rejected:{stage}:{}", msg.replace(' ', "_")),
+                Ok(rust_src) => {
+                    // `let <spelling> = 41;` and the struct field `pub <spelling>: i64`
+                    let spell = |before: &str, after: &str| -> Option<String> {
+                        rust_src.lines().find_map(|l| {
+                            let t = l.trim();
+                            t.strip_prefix(before).and_then(|r| r.strip_suffix(after)).map(|x| x.trim().to_string())
+                        })
+                    };
+                    let field = rust_src.lines().find_map(|l| l.trim().strip_suffix(": i64,").map(|x| x.trim_start_matches("pub ").trim().to_string()));
+                    match (spell("let ", " = 41;"), field) {
+                        (Some(a), Some(b)) if a == b => match a.strip_prefix("r#") {
+                            Some(r) => format!("raw {r}"),
+                            None => format!("plain {a}"),
+                        },
+                        (a, b) => format!("spellings-differ-or-missing {a:?} {b:?}"),
+                    }
+                }
+            };
+            out.case(&format!("c13 tok {n}"), &real);
+        }
+    }
+    // (a'') sibling names stay distinct: the name, name_, _name, r_name and NAME bound side by side
+    let mut sib_jobs: Vec<String> = Vec::new();
+    {
+        let mut ks: Vec<String> = rust.iter().filter(|k| lexes_as_ident(k) && k.as_str() != "Self" && k.as_str() != "self").cloned().collect();
+        ks.push("zeta".to_string());
+        if tier != "thorough" {
+            // a seeded third of them per run
+            let off = (seed % 3) as usize;
+            ks = ks.into_iter().enumerate().filter(|(i, k)| i % 3 == off || k == "zeta").map(|(_, k)| k).collect();
+        }
+        sib_jobs = ks;
+    }
+    let sib_cases: Vec<Case> = sib_jobs
+        .iter()
+        .map(|k| {
+            let up = if k.to_uppercase() != *k && lexes_as_ident(&k.to_uppercase()) { k.to_uppercase() } else { format!("{k}_up") };
+            let src = format!(
+                "model M:\n    {k}: int\n    {k}_: int\n    _{k}: int\n    r_{k}: int\n\ndef {k}_fn(x: int) -> int:\n    return x + 1\n\ndef f({k}: int, {k}_: int) -> int:\n    return {k} * 10 + {k}_\n\ndef main() -> None:\n    {k} = 1\n    {k}_ = 2\n    _{k} = 3\n    r_{k} = 4\n    {up} = 5\n    m = M({k}=6, {k}_=7, _{k}=8, r_{k}=9)\n    println(f\"{{{k}}} {{{k}_}} {{_{k}}} {{r_{k}}} {{{up}}} {{m.{k}}} {{m.{k}_}} {{m._{k}}} {{m.r_{k}}} {{f(1, 2)}} {{f({k}_=3, {k}=4)}} {{{k}_fn(1)}}\")\n"
+            );
+            Case { name: String::new(), source: src }
+        })
+        .collect();
+    let sib_out = runner::run_batch("/verif/.build/batch/c13s", "/verif/.build/batch-target", &sib_cases);
+    for (k, o) in sib_jobs.iter().zip(sib_out.iter()) {
+        out.case(&format!("c13 siblings {k}"), &runner::show(o));
+    }
+    let _ = std::fs::remove_dir_all("/verif/.build/batch/c13s");
     // (b) programs
     let legal_kw: Vec<String> = t["rust_keywords_legal_in_incan"].as_array().map(|a| a.iter().filter_map(|v| v.as_str().map(|s| s.to_string())).collect()).unwrap_or_default();
     let legal_kw: Vec<String> = legal_kw.into_iter().filter(|k| k != "Self").collect();
